@@ -205,6 +205,10 @@ func (fa *FactAnalysis) run() {
 			for _, f := range fa.p.FactsOfCond(e.Cond, e.Val) {
 				cand[f.Key] = f
 			}
+			// what a flag variable implies is known on this edge whatever was known before
+			for _, f := range fa.p.flagFacts(fa.f, e.Cond, e.Val, 0) {
+				cand[f.Key] = f
+			}
 			cur, seen := fa.in[e.To]
 			changed := false
 			if !seen {
